@@ -36,6 +36,17 @@ impl Case {
         self.probe.stmts.push(format!("p({id}, {expr});"));
         self.expected.insert(id, Expect { probe: self.probe.name.clone(), what, text, suffix: false });
     }
+    /// `for n in <iter>` loop in the probe: record id = base + index of n in `counts`
+    pub fn add_count_loop(&mut self, iter_expr: &str, index_expr: &str, call_with_n: &str, what: &str, expected: Vec<Option<String>>) {
+        let base = self.next_id;
+        self.next_id += expected.len();
+        self.probe.stmts.push(format!("for n in {iter_expr} {{ p({base} + ({index_expr}) as usize, {call_with_n}); }}"));
+        for (i, e) in expected.into_iter().enumerate() {
+            if let Some(text) = e {
+                self.expected.insert(base + i, Expect { probe: self.probe.name.clone(), what: format!("{what} [#{i}]"), text, suffix: false });
+            }
+        }
+    }
     /// a summary record that must end with `suffix`; the probe reports individual problems as records >= 1_000_000
     pub fn add_summary(&mut self, stmt: String, what: String, suffix: &str) {
         let id = self.next_id;
@@ -1008,12 +1019,488 @@ fn c18(tier: Tier) -> i32 {
     rep.finish(cov, &["ICU4X formatting with compiled data is the reference (trusted base)", "thread interleavings of the cache are the loom engine's part of this check"])
 }
 
+// ---------------------------------------------------------------------------------------------
+// L3 halves of C03 .. C08
+// ---------------------------------------------------------------------------------------------
+
+fn c03(tier: Tier) -> i32 {
+    let rep = Reporter::new("C03", "L3", tier);
+    let locales = ["en", "fr", "de"];
+    let maps = vmodel::gen::inherits_maps(&locales);
+    let mut cases = vec![];
+    let mut n_keys = 0u64;
+    for (mi, m) in maps.iter().enumerate() {
+        // quick: maps with a non-default target or a cycle, every third of the rest
+        let interesting = m.iter().any(|(k, v)| v != "en" && k != v) || m.iter().any(|(k, v)| k == v);
+        if tier == Tier::Quick && !interesting && mi % 3 != 0 {
+            continue;
+        }
+        let (full, _) = vmodel::gen::build_project(&locales, m);
+        // keep the value kinds x presence patterns, a third of the group combinations, the deep group
+        let mut p = Project::new(full.cfg.clone());
+        for ((ns, loc), entries) in &full.files {
+            let kept: Vec<(String, Val)> = entries
+                .iter()
+                .filter(|(k, _)| !k.starts_with('g') || k[1..].parse::<usize>().map(|i| i % 5 == mi % 5).unwrap_or(true))
+                .cloned()
+                .collect();
+            p.set_file(ns.as_deref(), loc, kept);
+        }
+        let mut c = Case::new(&format!("c03_{}_m{mi}", tier.name()), p);
+        c.add_all_keys(&[Flavour::TdString], &[Num::I(0), Num::I(1), Num::I(5)], 1);
+        n_keys += c.expected.len() as u64;
+        cases.push(c);
+    }
+    if tier == Tier::Thorough {
+        // one four-locale chain project
+        let l4 = ["en", "fr", "de", "it"];
+        for m in [vec![("it", "de"), ("de", "fr")], vec![("it", "de"), ("de", "it"), ("fr", "it")], vec![("fr", "fr"), ("de", "fr"), ("it", "en")]] {
+            let m: Vec<(String, String)> = m.into_iter().map(|(a, b)| (a.to_string(), b.to_string())).collect();
+            let (full, _) = vmodel::gen::build_project(&l4, &m);
+            let mut p = Project::new(full.cfg.clone());
+            for ((ns, loc), entries) in &full.files {
+                let kept: Vec<(String, Val)> = entries.iter().filter(|(k, _)| !k.starts_with('g') || k[1..].parse::<usize>().map(|i| i % 40 == 3).unwrap_or(true)).cloned().collect();
+                p.set_file(ns.as_deref(), loc, kept);
+            }
+            let mut c = Case::new(&format!("c03_thorough_l4_{}", cases.len()), p);
+            c.add_all_keys(&[Flavour::TdString, Flavour::Td], &[Num::I(0), Num::I(1)], 7);
+            cases.push(c);
+        }
+    }
+    execute(&rep, "C03", cases);
+    rep.nontriv(n_keys);
+    rep.sample(json!({"inherits": maps[7], "probe_call": "td_string!(Locale::de, str4).to_string()"}));
+    let mut cov = serde_json::Map::new();
+    cov.insert("rule".into(), json!("locales en*, fr, de: inherits maps (quick: every map with a non-default target, a self-reference or a cycle and a third of the others; thorough: all 16 + three 4-locale chain/cycle maps); per map a probe crate with one key per (value kind x defined/null/absent pattern), a fifth of the group-state combinations and the depth-3 group; every key in every locale through td_string! (counts 0,1,5 for ranges/plurals): the self-identifying text shows which locale's value the generated match arm uses"));
+    cov.insert("exhaustive".into(), json!(tier == Tier::Thorough));
+    rep.finish(cov, &[])
+}
+
+fn c04(tier: Tier) -> i32 {
+    let rep = Reporter::new("C04", "L3", tier);
+    let mut cases = vec![];
+    let mut n_decl = 0u64;
+    let mk_branch = |tag: &str, counts: Vec<CountSpec>, map_form: bool| Branch { value: Box::new(s(vec![text(&format!("[{tag}]")), var("count")])), counts, map_form, value_first: false };
+    let cs = |t: &str| CountSpec::Str(t.to_string());
+    for ty in [NumTy::I8, NumTy::U8, NumTy::I16, NumTy::I32, NumTy::I64, NumTy::U16, NumTy::U32, NumTy::U64, NumTy::F32, NumTy::F64] {
+        let (lo, hi) = ty.min_max();
+        let mut decls: Vec<RangeDecl> = vec![];
+        let tn = Some(ty.name().to_string());
+        let t = |i: usize, b: usize| format!("{}.{i}.{b}", ty.name());
+        if ty.is_float() {
+            let specs: Vec<Vec<CountSpec>> = vec![vec![cs("0")], vec![cs("..0.5")], vec![cs("..=0.5")], vec![cs("0.5..")], vec![cs("-1.5..2.25")], vec![cs("-1.5..=2.25")], vec![cs("0|1|2.25")], vec![CountSpec::Float("0.5".into()), cs("1..=2.25")], vec![CountSpec::UInt(1)]];
+            for (i, a) in specs.iter().enumerate() {
+                for (j, b) in specs.iter().enumerate() {
+                    if tier == Tier::Quick && (i + j) % 3 != 0 {
+                        continue;
+                    }
+                    let k = decls.len();
+                    decls.push(RangeDecl { ty: tn.clone(), branches: vec![mk_branch(&t(k, 0), a.clone(), k % 2 == 0), mk_branch(&t(k, 1), b.clone(), false), mk_branch(&t(k, 2), vec![], k % 3 == 0)] });
+                }
+            }
+        } else {
+            let b: Vec<i128> = [lo, lo + 1, -1, 0, 1, 2, hi - 1, hi].into_iter().filter(|x| *x >= lo && *x <= hi).collect::<std::collections::BTreeSet<_>>().into_iter().collect();
+            let mut specs: Vec<Vec<CountSpec>> = vec![];
+            for &x in &b {
+                specs.push(vec![if x < 0 { CountSpec::Int(x as i64) } else { CountSpec::UInt(x as u64) }]);
+                specs.push(vec![cs(&format!("..{x}"))]);
+                specs.push(vec![cs(&format!("..={x}"))]);
+                specs.push(vec![cs(&format!("{x}.."))]);
+                for &y in &b {
+                    if y > x {
+                        specs.push(vec![cs(&format!("{x}..{y}"))]);
+                        specs.push(vec![cs(&format!("{x}..={y}"))]);
+                    }
+                }
+            }
+            specs.push(vec![cs(&format!("{} | {}..={}", b[0], b[1], b[b.len() - 1]))]);
+            specs.retain(|sp| !matches!(parse_count_spec(ty, &sp[0]), Err(_)));
+            // one-branch + fallback for every spec; two-branch pairs thinned
+            for a in &specs {
+                let k = decls.len();
+                decls.push(RangeDecl { ty: tn.clone(), branches: vec![mk_branch(&t(k, 0), a.clone(), k % 2 == 1), mk_branch(&t(k, 1), vec![], false)] });
+            }
+            let step = tier.pick(17, 5);
+            for (i, a) in specs.iter().enumerate() {
+                for (j, c) in specs.iter().enumerate() {
+                    if (i * 31 + j) % step != 0 {
+                        continue;
+                    }
+                    let k = decls.len();
+                    decls.push(RangeDecl { ty: tn.clone(), branches: vec![mk_branch(&t(k, 0), a.clone(), false), mk_branch(&t(k, 1), c.clone(), k % 2 == 0), mk_branch(&t(k, 2), vec![cs("_")], false)] });
+                }
+            }
+            // full cover without fallback
+            if ty == NumTy::U8 || ty == NumTy::I8 {
+                let k = decls.len();
+                decls.push(RangeDecl { ty: tn.clone(), branches: vec![mk_branch(&t(k, 0), vec![cs(&format!("..={}", lo + 1))], false), mk_branch(&t(k, 1), vec![cs(&format!("{}..{}", lo + 2, hi))], false), mk_branch(&t(k, 2), vec![cs(&format!("{hi}"))], false)] });
+            }
+        }
+        decls.retain(|d| range_decl_status(d) == DeclStatus::Accept);
+        n_decl += decls.len() as u64;
+        // implicit i32 uses the same declarations without the type element
+        let mut p = Project::new(Config::simple("en", &["en"]));
+        let entries: Vec<(String, Val)> = decls.iter().enumerate().map(|(i, d)| (format!("r{i}"), Val::Range(d.clone()))).collect();
+        p.set_file(None, "en", entries);
+        let mut c = Case::new(&format!("c04_{}_{}", tier.name(), ty.name()), p.clone());
+        // counts: every value for 8-bit types, boundary neighbourhoods otherwise
+        let (iter_expr, index_expr, counts): (String, String, Vec<Num>) = if ty == NumTy::I8 {
+            ("i8::MIN..=i8::MAX".into(), "(n as i32 + 128)".into(), (lo..=hi).map(Num::I).collect())
+        } else if ty == NumTy::U8 {
+            ("u8::MIN..=u8::MAX".into(), "n".into(), (lo..=hi).map(Num::I).collect())
+        } else if ty.is_float() {
+            let base = [-1.5f64, 0.0, 0.5, 1.0, 2.25, 3.0];
+            let mut v: Vec<f64> = vec![];
+            for x in base {
+                if ty == NumTy::F32 {
+                    let f = x as f32;
+                    v.extend([f.next_down() as f64, f as f64, f.next_up() as f64]);
+                } else {
+                    v.extend([x.next_down(), x, x.next_up()]);
+                }
+            }
+            let lits: Vec<String> = v.iter().map(|f| if ty == NumTy::F32 { format!("{:?}f32", *f as f32) } else { format!("{f:?}f64") }).collect();
+            (format!("[{}].into_iter().enumerate()", lits.join(", ")), "n.0".into(), v.into_iter().map(Num::F).collect())
+        } else {
+            let b: Vec<i128> = [lo, lo + 1, -1, 0, 1, 2, hi - 1, hi].into_iter().filter(|x| *x >= lo && *x <= hi).collect();
+            let mut v: std::collections::BTreeSet<i128> = Default::default();
+            for x in b {
+                for d in -2..=2 {
+                    if x + d >= lo && x + d <= hi {
+                        v.insert(x + d);
+                    }
+                }
+            }
+            let lits: Vec<String> = v.iter().map(|i| format!("{i}{}", ty.name())).collect();
+            (format!("[{}].into_iter().enumerate()", lits.join(", ")), "n.0".into(), v.into_iter().map(Num::I).collect())
+        };
+        let m = Model::new(&p);
+        let enumerated = !(ty == NumTy::I8 || ty == NumTy::U8);
+        for (i, _) in decls.iter().enumerate() {
+            let path = vec![format!("r{i}")];
+            let exp_s: Vec<Option<String>> = counts
+                .iter()
+                .map(|n| {
+                    let mut env = Env { html_tags: true, ..Default::default() };
+                    env.counts.insert("count".into(), *n);
+                    expected(&m, &None, "en", &path, &env)
+                })
+                .collect();
+            let nexpr = if enumerated { "n.1" } else { "n" };
+            c.add_count_loop(&iter_expr, &index_expr, &format!("td_string!(Locale::en, r{i}, count = {nexpr}).to_string()"), &format!("{} r{i} {}", ty.name(), val_json(&Val::Range(decls[i].clone()))), exp_s);
+            // the view back-end for a subset
+            if i % tier.pick(9, 3) == 0 {
+                let exp_v: Vec<Option<String>> = counts
+                    .iter()
+                    .map(|n| {
+                        let mut env = Env { html_tags: true, empty_child_space: true, ..Default::default() };
+                        env.counts.insert("count".into(), *n);
+                        expected(&m, &None, "en", &path, &env)
+                    })
+                    .collect();
+                c.add_count_loop(&iter_expr, &index_expr, &format!("{{ let c = {nexpr}; html(td!(Locale::en, r{i}, count = move || c)) }}"), &format!("{} view r{i}", ty.name()), exp_v);
+            }
+        }
+        cases.push(c);
+    }
+    execute(&rep, "C04", cases);
+    rep.nontriv(n_decl);
+    rep.sample(json!({"probe_stmt": "for n in i8::MIN..=i8::MAX { p(base + (n as i32 + 128) as usize, td_string!(Locale::en, r17, count = n).to_string()); }"}));
+    let mut cov = serde_json::Map::new();
+    cov.insert("rule".into(), json!("one probe crate per numeric type (10): every one-branch declaration over the bound alphabet (exact, ..b, ..=b, a.., a..b, a..=b, alternatives) with a fallback, a thinned set of two-branch pairs in both syntaxes, a full cover without fallback for i8/u8; the generated match / if-chain is executed for ALL 256 counts (i8, u8) or every value within +-2 of a bound and the extremes (wider ints; next_up/next_down neighbours for floats) through td_string! and, for a subset, td! -> html; expected branch and `{{ count }}` text from the model's own spec parser + Rust comparison semantics"));
+    cov.insert("exhaustive".into(), json!(tier == Tier::Thorough));
+    rep.finish(cov, &["only declarations rustc can prove exhaustive (fallback or full cover) can be compiled; the rest is decided at L1"])
+}
+
+fn c05(tier: Tier) -> i32 {
+    let rep = Reporter::new("C05", "L3", tier);
+    let locales: Vec<&str> = tier.pick(vec!["en", "ru", "ar"], vec!["en", "fr", "ru", "ar", "pl", "ja", "cy", "he", "lt", "ga"]);
+    let five = [Form::Zero, Form::One, Form::Two, Form::Few, Form::Many];
+    let masks: Vec<u32> = tier.pick(vec![1, 2, 5, 10, 21, 31], (1..32).collect());
+    let mut p = Project::new(Config::simple("en", &locales));
+    for l in &locales {
+        let mut e = vec![];
+        for &mask in &masks {
+            for ordinal in [false, true] {
+                let base = format!("p{mask}{}", if ordinal { "o" } else { "c" });
+                for (i, f) in five.iter().enumerate() {
+                    if mask >> i & 1 == 1 {
+                        e.push((format!("{base}{}_{}", if ordinal { "_ordinal" } else { "" }, f.suffix()), s(vec![text(&format!("[{l}.{base}.{}]", f.suffix())), var("count")])));
+                    }
+                }
+                e.push((format!("{base}{}_other", if ordinal { "_ordinal" } else { "" }), s(vec![text(&format!("[{l}.{base}.other]")), var("count")])));
+            }
+        }
+        p.set_file(None, l, e);
+    }
+    let m = Model::new(&p);
+    let mut c = Case::new(&format!("c05_{}", tier.name()), p.clone());
+    let counts: Vec<Num> = (0..=200).map(Num::I).collect();
+    for l in &locales {
+        for &mask in &masks {
+            for ordinal in [false, true] {
+                let base = format!("p{mask}{}", if ordinal { "o" } else { "c" });
+                let path = vec![base.clone()];
+                let exp: Vec<Option<String>> = counts
+                    .iter()
+                    .map(|n| {
+                        let mut env = Env { html_tags: true, ..Default::default() };
+                        env.counts.insert("count".into(), *n);
+                        expected(&m, &None, l, &path, &env)
+                    })
+                    .collect();
+                c.add_count_loop("0u64..=200", "n", &format!("td_string!({}, {base}, count = n).to_string()", locale_variant(l)), &format!("plural {base} @{l}"), exp);
+            }
+        }
+        // td_plural! / td_plural_ordinal!: the category itself
+        for ordinal in [false, true] {
+            let mac = if ordinal { "leptos_i18n::td_plural_ordinal" } else { "leptos_i18n::td_plural" };
+            let exp: Vec<Option<String>> = (0..=200).map(|n| Some(category_int(l, ordinal, n).suffix().to_string())).collect();
+            c.add_count_loop(
+                "0u64..=200",
+                "n",
+                &format!("{{ let f = {mac}!({}, count = move || n, zero => \"zero\", one => \"one\", two => \"two\", few => \"few\", many => \"many\", _ => \"other\"); f.to_string() }}", locale_variant(l)),
+                &format!("{mac} @{l}"),
+                exp,
+            );
+        }
+    }
+    // view back-end on the full-form keys
+    for l in &locales {
+        for base in ["p31c", "p31o"] {
+            if !masks.contains(&31) {
+                continue;
+            }
+            let path = vec![base.to_string()];
+            let exp: Vec<Option<String>> = (0..=30)
+                .map(|n| {
+                    let mut env = Env { html_tags: true, empty_child_space: true, ..Default::default() };
+                    env.counts.insert("count".into(), Num::I(n));
+                    expected(&m, &None, l, &path, &env)
+                })
+                .collect();
+            c.add_count_loop("0u64..=30", "n", &format!("html(td!({}, {base}, count = move || n))", locale_variant(l)), &format!("plural view {base} @{l}"), exp);
+        }
+    }
+    let n = c.expected.len();
+    execute(&rep, "C05", vec![c]);
+    rep.nontriv((masks.len() * 2 * locales.len()) as u64);
+    rep.sample(json!({"probe_stmt": "for n in 0u64..=200 { p(base + n as usize, td_string!(Locale::ru, p21c, count = n).to_string()); }", "records": n}));
+    let mut cov = serde_json::Map::new();
+    cov.insert("rule".into(), json!(format!("locales {locales:?}; plural keys for form subsets {masks:?} (+ other), cardinal and ordinal; the generated `match category_for(count)` is executed for counts 0..=200 through td_string! (all), td! -> html (full-form keys, 0..=30), and td_plural!/td_plural_ordinal! (the category itself) and compared with ICU4X category_for called by the harness for the locale being rendered")));
+    cov.insert("exhaustive".into(), json!(tier == Tier::Thorough));
+    rep.finish(cov, &["ICU4X compiled CLDR data is the trusted base"])
+}
+
+fn c06(tier: Tier) -> i32 {
+    let rep = Reporter::new("C06", "L3", tier);
+    use vmodel::gen::*;
+    let no_ns = |_: usize| -> Option<&'static str> { None };
+    // every depth-1 chain (15 x 7) and a thinned depth-2 set as keys of a few probe crates:
+    // key names are prefixed so that many chains share one project
+    let mut chains: Vec<(Vec<Refk>, Leaf)> = vec![];
+    for r in REFS {
+        for l in LEAVES {
+            chains.push((vec![r], l));
+        }
+    }
+    let step = tier.pick(11, 3);
+    for (i, rt) in tuples(REFS.len(), 2).into_iter().enumerate() {
+        for (j, l) in LEAVES.iter().enumerate() {
+            if (i * 7 + j) % step == 0 {
+                chains.push((vec![REFS[rt[0]], REFS[rt[1]]], *l));
+            }
+        }
+    }
+    let mut cases = vec![];
+    let per = 40;
+    let mut n_chains = 0u64;
+    for (ci, chunk) in chains.chunks(per).enumerate() {
+        let mut files: BTreeMap<String, Vec<(String, Val)>> = BTreeMap::new();
+        for (k, (refs, leaf)) in chunk.iter().enumerate() {
+            // skip chains the statement rejects or leaves open, and the recorded fk-inside-component finding
+            if refs.contains(&Refk::InComp) {
+                continue;
+            }
+            let perm: Vec<usize> = (0..=refs.len()).collect();
+            let mut probe_p = Project::new(Config::simple("en", &["en", "fr"]));
+            for loc in ["en", "fr"] {
+                let e: Vec<(String, Val)> = chain_entries(refs, *leaf, &perm, loc, &no_ns).into_iter().flat_map(|(_, x)| x).collect();
+                probe_p.set_file(None, loc, e);
+            }
+            let mm = Model::new(&probe_p);
+            let ok = mm.namespaces().iter().all(|ns| mm.default_keys(ns).iter().all(|path| mm.locales.iter().all(|l| mm.resolve(ns, l, path).is_ok())));
+            // count typing conflicts make the whole project an error: keep such chains out of the shared project
+            let mut conflict = false;
+            for path in mm.default_keys(&None) {
+                let sig = key_sig(&mm, &None, &path);
+                if sig.counts.values().any(|k| k.len() > 1) {
+                    conflict = true;
+                }
+            }
+            if !ok || conflict {
+                continue;
+            }
+            n_chains += 1;
+            // rename a,b,c -> c<k>a ...
+            let rename = |name: &str| format!("c{k}{name}");
+            for loc in ["en", "fr"] {
+                let entries = probe_p.files.get(&(None, loc.to_string())).unwrap();
+                let renamed: Vec<(String, Val)> = entries.iter().map(|(n, v)| (rename(n), rename_fk(v, &rename))).collect();
+                files.entry(loc.to_string()).or_default().extend(renamed);
+            }
+        }
+        let mut p = Project::new(Config::simple("en", &["en", "fr"]));
+        for (loc, e) in files {
+            p.set_file(None, &loc, e);
+        }
+        let mut c = Case::new(&format!("c06_{}_{ci}", tier.name()), p);
+        c.add_all_keys(&[Flavour::TdString, Flavour::Td], &[Num::I(0), Num::I(1), Num::I(2), Num::I(5)], 5);
+        cases.push(c);
+    }
+    execute(&rep, "C06", cases);
+    rep.nontriv(n_chains);
+    rep.sample(json!({"chain": "c7a = $t(c7b, {\"count\": \" {{n}} \"}), c7b = plural", "probe_call": "td_string!(Locale::fr, c7a, n = 1i64, x = \"«x»\").to_string()"}));
+    let mut cov = serde_json::Map::new();
+    cov.insert("rule".into(), json!("every depth-1 reference chain (14 referencing forms x 7 target kinds; the recorded fk-inside-component form is left to L1) and a thinned depth-2 set, each under its own key prefix in shared two-locale probe projects; every key (referencing and referenced) in every locale through td_string! and, for a fifth, td! -> html with counts {0,1,2,5}: the generated code must render what pure substitution gives"));
+    cov.insert("exhaustive".into(), json!(false));
+    rep.finish(cov, &["chains whose count typing conflicts or that the statement rejects cannot be compiled: decided at L1"])
+}
+
+fn rename_fk(v: &Val, rename: &dyn Fn(&str) -> String) -> Val {
+    fn segs(sg: &[Seg], rename: &dyn Fn(&str) -> String) -> Vec<Seg> {
+        sg.iter()
+            .map(|x| match x {
+                Seg::Fk { path, args, ws } => Seg::Fk {
+                    path: {
+                        let mut parts: Vec<String> = path.split('.').map(String::from).collect();
+                        parts[0] = rename(&parts[0]);
+                        parts.join(".")
+                    },
+                    ws: *ws,
+                    args: args
+                        .iter()
+                        .map(|(k, a)| (k.clone(), match a {
+                            FkArg::Str(s) => FkArg::Str(segs(s, rename)),
+                            o => o.clone(),
+                        }))
+                        .collect(),
+                },
+                Seg::Comp { name, ws, children } => Seg::Comp { name: name.clone(), ws: *ws, children: segs(children, rename) },
+                o => o.clone(),
+            })
+            .collect()
+    }
+    match v {
+        Val::Str(s) => Val::Str(segs(s, rename)),
+        Val::Range(r) => Val::Range(RangeDecl { ty: r.ty.clone(), branches: r.branches.iter().map(|b| Branch { value: Box::new(rename_fk(&b.value, rename)), ..b.clone() }).collect() }),
+        o => o.clone(),
+    }
+}
+
+/// C07 / C08: what compiles and what does not
+fn c07_c08(tier: Tier, pid: &str) -> i32 {
+    let rep = Reporter::new(pid, "L3", tier);
+    // project: per-locale kinds differ; surplus and misspelt keys do not exist
+    let mut p = Project::new(Config::simple("en", &["en", "fr", "de"]));
+    let rb = |v: Val, counts: Vec<CountSpec>| Branch { value: Box::new(v), counts, map_form: false, value_first: false };
+    p.set_file(
+        None,
+        "en",
+        vec![
+            ("k1".into(), st("[en.k1]")),
+            ("k2".into(), s(vec![text("[en.k2]"), var("x")])),
+            ("k3".into(), s(vec![comp("b", vec![text("[en.k3]")])])),
+            ("k4".into(), Val::Range(RangeDecl { ty: Some("u8".into()), branches: vec![rb(st("[en.k4.0]"), vec![CountSpec::UInt(0)]), rb(s(vec![text("[en.k4.fb]"), var("count")]), vec![])] })),
+            ("k5_one".into(), st("[en.k5.one]")),
+            ("k5_other".into(), s(vec![text("[en.k5.other]"), var("count")])),
+            ("k6".into(), st("[en.k6]")),
+            ("g".into(), Val::Sub(vec![("inner".into(), st("[en.g.inner]"))])),
+        ],
+    );
+    p.set_file(
+        None,
+        "fr",
+        vec![
+            ("k1".into(), s(vec![text("[fr.k1]"), var("y")])),
+            ("k2".into(), st("[fr.k2]")),
+            ("k3".into(), s(vec![text("[fr.k3]"), var("z"), comp("i", vec![])])),
+            ("k4".into(), s(vec![text("[fr.k4]"), var("w")])),
+            ("k5".into(), Val::Null),
+            ("k6".into(), s(vec![fk_args("k5", vec![("count", FkArg::Str(vec![var("n")]))])])),
+            ("g".into(), Val::Sub(vec![("inner".into(), s(vec![text("[fr.g.inner]"), var("v")]))])),
+            ("only_fr".into(), st("[fr.surplus]")),
+        ],
+    );
+    p.set_file(None, "de", vec![("k1".into(), Val::Null), ("k2".into(), s(vec![comp("b", vec![var("x")])])), ("k3".into(), Val::Null), ("k4".into(), Val::Null), ("k6".into(), Val::Null), ("g".into(), Val::Null)]);
+    let m = Model::new(&p);
+    let mut c = Case::new(&format!("{}_{}", pid.to_lowercase(), tier.name()), p.clone());
+    // positive: exactly the union compiles and renders in every locale
+    c.add_all_keys(&[Flavour::TdString, Flavour::Td], &[Num::I(0), Num::I(3)], 1);
+    // negative bins: omit each member in turn / unknown argument / unknown key / surplus key
+    let mut negatives: Vec<(String, String, &'static str)> = vec![]; // (bin name, statement, expected reason substring)
+    for path in m.default_keys(&None) {
+        let sig = key_sig(&m, &None, &path);
+        let key = key_path_tokens(&None, &path);
+        let Some((tail, _)) = args_for(&sig, Flavour::TdString, Num::I(0)) else { continue };
+        let args: Vec<&str> = tail.trim_start_matches(", ").split(", ").filter(|a| !a.is_empty()).collect();
+        for (i, _) in args.iter().enumerate() {
+            let rest: Vec<&str> = args.iter().enumerate().filter(|(j, _)| *j != i).map(|(_, a)| *a).collect();
+            let t = if rest.is_empty() { String::new() } else { format!(", {}", rest.join(", ")) };
+            negatives.push((format!("neg_{}_{i}", key.replace('.', "_")), format!("let _ = td_string!(Locale::en, {key}{t}).to_string();"), "omitted"));
+        }
+        negatives.push((format!("neg_{}_extra", key.replace('.', "_")), format!("let _ = td_string!(Locale::en, {key}{tail}, not_an_argument = 1).to_string();"), "unknown-argument"));
+    }
+    negatives.push(("neg_surplus".into(), "let _ = td_string!(Locale::fr, only_fr).to_string();".into(), "surplus-key"));
+    negatives.push(("neg_misspelt".into(), "let _ = td_string!(Locale::en, k11).to_string();".into(), "unknown-key"));
+    negatives.push(("neg_group_as_value".into(), "let _ = td_string!(Locale::en, g).to_string();".into(), "group-as-value"));
+    negatives.push(("neg_value_as_group".into(), "let _ = td_string!(Locale::en, k1.inner).to_string();".into(), "value-as-group"));
+    // a positive control bin: the machinery can tell success from failure
+    negatives.push(("pos_control".into(), "let _ = td_string!(Locale::en, k1, y = \"v\").to_string();".into(), "control"));
+    for (name, stmt, _) in &negatives {
+        c.probe.extra_bins.push((name.clone(), format!("#![allow(warnings)]\nuse leptos::prelude::*;\nleptos_i18n::load_locales!();\nuse i18n::*;\nfn main() {{ {stmt} }}\n")));
+    }
+    let name = c.probe.name.clone();
+    let dir = c.probe.dir();
+    execute(&rep, pid, vec![c]);
+    let bins: Vec<String> = negatives.iter().map(|n| n.0.clone()).collect();
+    let res = check_bins(&name, &bins);
+    for (bin, stmt, why) in &negatives {
+        rep.eval(1);
+        let (ok, msg) = res.get(bin).cloned().unwrap_or((false, "no verdict".into()));
+        if *why == "control" {
+            if !ok {
+                vmodel::report::machinery_fail(&format!("the positive control bin does not compile: {msg}"));
+            }
+            continue;
+        }
+        if ok {
+            rep.violation(format!("{pid}/L3: `{stmt}` compiles although it must not ({why})"), json!({"probe_dir": dir.display().to_string(), "bin": bin}));
+        } else if msg.contains("cargo check failed") {
+            vmodel::report::machinery_fail(&format!("cargo check of the negative probes failed: {msg}"));
+        }
+    }
+    rep.nontriv(negatives.len() as u64);
+    rep.sample(json!({"must_not_compile": negatives[0].1, "reason": negatives[0].2}));
+    rep.sample(json!({"must_not_compile": "let _ = td_string!(Locale::fr, only_fr).to_string();", "reason": "surplus key is unreachable"}));
+    let mut cov = serde_json::Map::new();
+    cov.insert("rule".into(), json!("three-locale project whose keys mix kinds across locales (string / variables / components / range / plural / renamed-count foreign key / null) plus a surplus key and a group; positive: every default-locale key with exactly the union of arguments compiles and renders the reference text in every locale (td_string!, td!); negative: one [[bin]] per omitted argument of every key, per unknown argument, and for a surplus key, a misspelt key, a group used as a value and a value used as a group - each checked with `cargo check --message-format=json` and required NOT to compile (a positive control bin must compile)"));
+    cov.insert("exhaustive".into(), json!(true));
+    rep.finish(cov, &["the compile error of a negative probe is attributed to the probed call: each bin contains nothing else"])
+}
+
 fn main() {
     let args: Vec<String> = std::env::args().collect();
     let tier = Tier::from_env_or_args(&args);
     let code = match args.get(1).map(|s| s.as_str()).unwrap_or("") {
         "c01" => c01(tier),
         "c02" => c02(tier),
+        "c03" => c03(tier),
+        "c04" => c04(tier),
+        "c05" => c05(tier),
+        "c06" => c06(tier),
+        "c07" => c07_c08(tier, "C07"),
+        "c08" => c07_c08(tier, "C08"),
         "c13" => c13(tier),
         "c17" => c17(tier),
         "c18" => c18(tier),
